@@ -32,10 +32,11 @@ type Program struct {
 
 // LoadOpts controls one load of the repository.
 type LoadOpts struct {
-	Repo    string
-	Deep    bool              // load dependencies from source too (thorough tier)
-	Overlay map[string][]byte // absolute file name -> contents
-	Tags    string
+	Repo     string
+	Deep     bool              // load dependencies from source too (thorough tier)
+	Overlay  map[string][]byte // absolute file name -> contents
+	Tags     string
+	Patterns []string // default ./...
 }
 
 func loadProgram(o LoadOpts) (*Program, error) {
@@ -60,7 +61,11 @@ func loadProgram(o LoadOpts) (*Program, error) {
 	if o.Tags != "" {
 		cfg.BuildFlags = []string{"-tags=" + o.Tags}
 	}
-	pkgs, err := packages.Load(cfg, "./...")
+	pats := o.Patterns
+	if len(pats) == 0 {
+		pats = []string{"./..."}
+	}
+	pkgs, err := packages.Load(cfg, pats...)
 	if err != nil {
 		return nil, fmt.Errorf("packages.Load: %w", err)
 	}
